@@ -590,6 +590,9 @@ class HealpixLandscape(StokesLandscape):
         Returns:
             int: HEALPix map index for ring ordering scheme.
         """
+        # in the polar caps jax_healpy maps a longitude within one ulp below 0 to the first pixel
+        # of the NEXT ring (its mod(2 phi / pi, 4) rounds to 4): wrap the longitude first
+        phi = jnp.mod(phi, 2 * np.pi)
         return (jhp.ang2pix(self.nside, theta, phi),)
 
 
